@@ -271,6 +271,15 @@ func (v *fnVC) frameAltsK(addr T, mapRef bool) ([]T, bool) {
 			t, _ := v.tr(ex, env)
 			v.P.add("inTree", inTreeDecl)
 			alts = append(alts, app("inTree", t, app("root", addr)))
+		case strings.HasPrefix(m, "cell("):
+			// the whole cell a pointer (typically a captured variable) points to
+			ex, _ := parseExpr(m[5 : len(m)-1])
+			t, ty := v.tr(ex, env)
+			if pt, ok := ty.Underlying().(*types.Pointer); ok {
+				for _, leaf := range v.leafAddrs(t, pt.Elem()) {
+					alts = append(alts, eq(addr, leaf))
+				}
+			}
 		case strings.HasPrefix(m, "elems("):
 			ex, _ := parseExpr(m[6 : len(m)-1])
 			t, _ := v.tr(ex, env)
@@ -333,7 +342,9 @@ func (v *fnVC) frameCheckTree(t T, text string, pos token.Pos) {
 	}
 	env := v.entryEnv()
 	env.useEntryOld, env.inOld, env.old = true, true, map[string]T{}
-	var alts []T
+	// a configuration that did not exist at entry has no entry-state tree: whatever the callee touches is fresh
+	v.memSrt[allocMem] = "Bool"
+	alts := []T{and(not(eq(t, "0")), not(sel(v.mem0(allocMem), t))), eq(t, "0")}
 	for _, m := range v.con.Modifies {
 		if m == "*" {
 			return
